@@ -617,6 +617,255 @@ def no_mutation_by_callees(repo: Repo, R: Report) -> List[Tuple[str, Tuple[str, 
     return accepted
 
 
+# ---------------------------------------------------------------------------
+# round 11: D4d - the pipeline id of pipeline_start is the hash of the canonical graph, not of an enriched one
+# ---------------------------------------------------------------------------
+_VALUE_ADDERS = {"append": 0, "add": 0, "appendleft": 0, "extend": 0, "extendleft": 0, "insert": 1, "setdefault": 1, "__setitem__": 1}
+
+
+def _fresh_container(root: ast.AST) -> bool:
+    """A container this very expression creates (literal, comprehension, shallow copy): its content is what counts."""
+    from .c04_rest import MAP_COPIES, SEQ_COPIES
+
+    if isinstance(root, (ast.Dict, ast.List, ast.Tuple, ast.Set, ast.ListComp, ast.SetComp, ast.DictComp, ast.GeneratorExp)):
+        return True
+    if isinstance(root, ast.Call):
+        if isinstance(root.func, ast.Name) and root.func.id in MAP_COPIES | SEQ_COPIES:
+            return True
+        if isinstance(root.func, ast.Attribute) and root.func.attr == "copy" and not root.args and not root.keywords:
+            return True
+    return False
+
+
+def _content_leaves(flow, e: ast.AST, use: int, depth: int = 0, path: Tuple[str, ...] = ()) -> Optional[Set[Tuple[ast.AST, Tuple[str, ...]]]]:
+    """The origins of what *e* holds, looked up through the containers the function creates itself (a list of copies of
+    X's elements -> the origins of the elements' fields).  None when it cannot be followed."""
+    from .c04_rest import ANY
+
+    try:
+        leaves = flow._q(e, path, use, frozenset())
+    except (AnalysisError, RecursionError):
+        return None
+    out: Set[Tuple[ast.AST, Tuple[str, ...]]] = set()
+    descend = False
+    for root, rest in leaves:
+        if not rest and _fresh_container(root):
+            if any(g.ifs for c in ast.walk(root) if isinstance(c, (ast.ListComp, ast.SetComp, ast.DictComp, ast.GeneratorExp)) for g in c.generators):
+                return None  # a filtered copy is not the same content
+            descend = True
+        else:
+            out.add((root, rest))
+    if descend:
+        if depth >= 4:
+            return None
+        sub = _content_leaves(flow, e, use, depth + 1, path + (ANY,))
+        if sub is None:
+            return None
+        out |= {l for l in sub if not (l[0], l[1][:-1]) in out}  # (an opaque leaf re-read one level deeper says nothing new)
+    return out
+
+
+def _objects_reachable(flow, x: ast.AST, keys: List[str], max_depth: int = 3) -> Set[Tuple[ast.AST, Tuple[str, ...]]]:
+    """The objects the value of *x* reaches (value-origin leaves, identity mode): x itself and, through the containers
+    the function creates itself, what they hold - a mapping is asked field by field (the constant keys used anywhere in
+    the function: a later entry of a literal replaces what a `**spread` brought under the same key, so the replaced
+    object is not reached), a sequence for any element.  A leaf the function did not create (parameter, result of a
+    call) stands for everything below it."""
+    from .c04_rest import ANY, MAP_COPIES
+
+    out: Set[Tuple[ast.AST, Tuple[str, ...]]] = set()
+    seen: Set[Tuple[str, ...]] = set()
+
+    def visit(path: Tuple[str, ...]) -> None:
+        if path in seen:
+            return
+        seen.add(path)
+        try:
+            leaves = flow.origins(x, path)
+        except (AnalysisError, RecursionError):
+            return
+        out.update(leaves)
+        if len(path) >= max_depth:
+            return
+        fresh = [root for root, rest in leaves if not rest and _fresh_container(root)]
+        if not fresh:
+            return
+        mapping_like = [r for r in fresh if isinstance(r, (ast.Dict, ast.DictComp)) or (isinstance(r, ast.Call) and (call_attr(r) in MAP_COPIES or call_attr(r) == "copy"))]
+        if mapping_like:
+            for k in keys:
+                visit(path + (k,))
+            if any(isinstance(r, ast.DictComp) or (isinstance(r, ast.Dict) and any(k is not None and not (isinstance(k, ast.Constant) and isinstance(k.value, str)) for k in r.keys)) for r in mapping_like):
+                visit(path + (ANY,))
+        if len(mapping_like) < len(fresh) or any(isinstance(r, ast.Call) and call_attr(r) == "copy" for r in mapping_like):
+            visit(path + (ANY,))
+
+    visit(())
+    return out
+
+
+def _written_values(st: ast.AST, container: ast.AST) -> Optional[List[ast.AST]]:
+    """The expressions whose values the in-place write *st* puts into *container*; None for a write that removes,
+    reorders or combines (del, pop, clear, sort, +=)."""
+    if isinstance(st, ast.Assign):
+        hit = [t for t in st.targets for el in (t.elts if isinstance(t, (ast.Tuple, ast.List)) else [t]) if isinstance(el, (ast.Subscript, ast.Attribute)) and el.value is container]
+        if hit and all(isinstance(t, (ast.Subscript, ast.Attribute)) for t in hit):
+            return [st.value]
+    if isinstance(st, ast.AnnAssign) and st.value is not None and isinstance(st.target, (ast.Subscript, ast.Attribute)) and st.target.value is container:
+        return [st.value]
+    for c in ast.walk(st):
+        if isinstance(c, ast.Call) and isinstance(c.func, ast.Attribute) and c.func.value is container:
+            m = c.func.attr
+            if m in _VALUE_ADDERS and len(c.args) == _VALUE_ADDERS[m] + 1 and not c.keywords:
+                return [c.args[-1]]
+            if m == "update" and not any(isinstance(a, ast.Starred) for a in c.args) and all(kw.arg for kw in c.keywords):
+                return list(c.args) + [kw.value for kw in c.keywords]
+    return None
+
+
+def _local_spellings(mod, public_name: str) -> Set[str]:
+    """The identifiers under which a module can call the public function *public_name*: the name itself (also as an
+    attribute of its module) and the aliases it is imported under (cheap pre-filter; the call is then resolved)."""
+    return {public_name} | {alias for alias, dotted in mod.imports.items() if dotted.split(".")[-1] == public_name}
+
+
+def callers_of(repo: Repo, target: ast.AST) -> List[Tuple[str, str]]:
+    """(file, function) of the package functions (outermost; private helpers are seen inlined in their normal form)
+    that call *target* - found through call resolution, whatever the local spelling."""
+    name = target.name  # type: ignore[attr-defined]
+    out: List[Tuple[str, str]] = []
+    for mod, qn, f in repo.all_functions():
+        if name not in mod.source or mod.rel.startswith("semantiva/examples/") or f is target:
+            continue  # (a caller has to spell the name of the function somewhere: import, alias or attribute)
+        if "." in qn and not isinstance(getattr(f, "_parent", None), ast.ClassDef):
+            continue  # nested functions are seen inside their owner
+        spellings = _local_spellings(mod, name)
+        for c in calls_in(f):
+            if call_attr(c) not in spellings:
+                continue
+            try:
+                if any(tf is target for _tm, tf in repo.resolve_call(mod, c)):
+                    out.append((mod.rel, qn))
+                    break
+            except AnalysisError:
+                continue
+    return out
+
+
+def pipeline_id_sinks(repo: Repo) -> List[Tuple[ast.AST, str, str]]:
+    """(function, parameter, description): the function that produces the pipeline id with the parameter it hashes, and
+    the package functions that hand one of their own parameters on to such a function unchanged (a wrapper method
+    around the id computation): a call of any of them hashes the argument bound to that parameter."""
+    from .c04_rest import PREFIX_OWNERS
+
+    home_rel, home_fn = PREFIX_OWNERS["plid-"]
+    target = repo.func(home_rel, home_fn)
+    first = (target.args.posonlyargs + target.args.args)[0].arg
+    sinks: List[Tuple[ast.AST, str, str]] = [(target, first, home_fn)]
+    frontier = list(sinks)
+    for _round in range(2):
+        nxt: List[Tuple[ast.AST, str, str]] = []
+        for tf, pn, desc in frontier:
+            for rel, qn in callers_of(repo, tf):
+                flow = _identity_flow(repo, rel, qn)
+                if flow is None:
+                    continue
+                mod = repo.module(rel)
+                for c in calls_in(flow.fn):
+                    if call_attr(c) not in _local_spellings(mod, tf.name) or not any(t is tf for _tm, t in _package_targets(repo, mod, c)):
+                        continue
+                    x = dict(_bind_args(tf, c)).get(pn)
+                    if x is None:
+                        continue
+                    try:
+                        leaves = flow.origins(x)
+                    except AnalysisError:
+                        continue
+                    for root, rest in leaves:
+                        if isinstance(root, ast.Name) and not rest and root.id in flow.params and root.id not in ("self", "cls"):
+                            f0 = repo.func(rel, qn)
+                            if not any(f0 is s0 and root.id == p0 for s0, p0, _d in sinks + nxt):
+                                nxt.append((f0, root.id, f"{qn} -> {desc}"))
+        sinks += nxt
+        frontier = nxt
+    return sinks
+
+
+def pipeline_id_hashes_canonical_graph(repo: Repo, R: Report) -> None:
+    """C04-D4d: what compute_pipeline_id is given at run time is the canonical graph itself."""
+    from .c04_rest import ANY, PREFIX_OWNERS, _acc_may_equal
+
+    home_rel, home_fn = PREFIX_OWNERS["plid-"]
+    target = repo.func(home_rel, home_fn)
+    r = R.rule("C04-D4d-pipeline-id-hashes-canonical-graph", f"wherever the package computes a pipeline id ({home_fn}(X)), X is - at the moment of the call - the canonical graph as the canonicaliser made it (or as the caller handed it in), possibly copied: no in-place write that can happen before the call puts a value from elsewhere (preprocessor metadata, a resolved class, a default) into X or into an object X still shares, and none removes or reorders anything there.  Pipeline(...).canonical_spec / build_graph(cfg) hash the plain canonical graph; a pipeline_start whose id is the hash of an enriched graph gives the same configuration another pipeline id in the trace than at construction", 1)
+    n_calls = 0
+    sinks = pipeline_id_sinks(repo)
+    todo: List[Tuple[str, str]] = []
+    for tf, _pn, _desc in sinks:
+        todo += [fq for fq in callers_of(repo, tf) if fq not in todo]
+    for rel, qn in todo:
+        flow = _identity_flow(repo, rel, qn)
+        if flow is None:
+            raise AnalysisError(f"{qn}: value-origin analysis failed (anchor of the pipeline id argument)")
+        mod = repo.module(rel)
+        sites = list(mutation_targets(flow.fn))
+        sites += [(stmt_of(k), k.func.value) for k in calls_in(flow.fn) if isinstance(k.func, ast.Attribute) and k.func.attr in ("pop", "popitem")]
+        keys = ["f:" + k for k in _const_keys_of(flow.fn)]
+        spelt = set().union(*[_local_spellings(mod, tf.name) for tf, _pn, _d in sinks])
+        for c in calls_in(flow.fn):  # (the normal form: a private wrapper of the same module may already be inlined)
+            if call_attr(c) not in spelt:
+                continue
+            resolved = _package_targets(repo, mod, c)
+            sink, sink_param = next(((tf, pn) for tf, pn, _d in sinks if any(t is tf for _tm, t in resolved)), (None, ""))
+            if sink is None:
+                continue
+            x = dict(_bind_args(sink, c)).get(sink_param)
+            if x is None:
+                continue
+            n_calls += 1
+            uses = flow.uses_of(c)
+            shared = _objects_reachable(flow, x, keys)
+            graph_roots = {id(root) for root, rest in shared if not _fresh_container(root) and isinstance(root, (ast.Name, ast.Call))}
+            bad = 0
+            for st, container in sites:
+                root, _keys = access_path(container)
+                if root is None or root == "self":
+                    continue
+                w_nodes = flow.g.nodes_for(st)
+                if not any(flow._can_precede(w, u) for w in w_nodes for u in uses):
+                    continue  # the write cannot have happened when X is hashed
+                try:
+                    hit_objs = flow.origins(container)
+                except AnalysisError:
+                    continue
+                # the written object is one X reaches: the same creation site, or (part of) something X holds that this
+                # function did not create (the canonicaliser's result, the caller's graph: every object below it is shared)
+                same = sorted(_leaf_text(lc) for lc in hit_objs for lx in shared if lc[0] is lx[0] and all(_acc_may_equal(a, b) for a, b in zip(lc[1], lx[1]))
+                              and (len(lc[1]) == len(lx[1]) or (len(lc[1]) > len(lx[1]) and not _fresh_container(lx[0]))))
+                if not same:
+                    continue  # not an object X can reach
+                vals = _written_values(st, container)
+                foreign: List[str] = []
+                if vals is None:
+                    foreign = ["(removes / reorders / combines in place)"]
+                else:
+                    for v in vals:
+                        for w in w_nodes:
+                            leaves = _content_leaves(flow, v, w)
+                            if leaves is None:
+                                foreign.append(norm(v)[:40])
+                                continue
+                            foreign += [_leaf_text(l) for l in sorted(leaves, key=lambda l: (getattr(l[0], "lineno", 0), getattr(l[0], "col_offset", 0), l[1])) if id(l[0]) not in graph_roots]
+                if not foreign:
+                    continue  # builds X out of parts of the canonical graph (a copy made field by field / element by element)
+                bad += 1
+                R.violation(r, rel, qn, norm(st)[:90],
+                            f"`{norm(c)[:60]}` hashes `{norm(x)[:30]}` after this write can have happened: `{norm(container)[:40]}` is (part of) that object (`{same[0]}`), and the write puts `{foreign[0]}` there - a value that is not taken from the canonical graph.  The pipeline id announced on pipeline_start (and carried by every SER record) is then the hash of the enriched graph, while Pipeline(cfg).canonical_spec / build_graph(cfg) / {home_fn}(build_graph(cfg)) give the hash of the canonical graph: the same configuration has two pipeline ids wherever the write applies (nodes with preprocessor metadata - parameter sweeps)", st.lineno)
+            if not bad:
+                R.ok(r, rel, qn, f"{norm(c)[:70]}: nothing foreign is written into the hashed graph before the call")
+    if not n_calls:
+        raise AnalysisError(f"no call of {home_fn} found in the package (execute() computes the pipeline id of pipeline_start)")
+
+
 def _leaf_text(leaf) -> str:
     from .c04_rest import _show_leaf
 
@@ -644,6 +893,7 @@ def run(repo: Repo, R: Report) -> None:
     no_mutation_of_hashed_input(repo, R)
     no_mutation_of_node_configs(repo, R)
     write_backs_absorbed(repo, R, no_mutation_by_callees(repo, R))
+    pipeline_id_hashes_canonical_graph(repo, R)
     from . import c04_rest
 
     c04_rest.run(repo, R)
